@@ -427,11 +427,13 @@ func explore(ld *loaded, cfg *runConfig) *runResult {
 					return
 				}
 				px, outcome, reason := runPath(ld, ex, sv, prefix)
-				if outcome == "ok" {
+				if outcome == "ok" && len(px.vars) > 0 && cfg.Samples > 0 {
+					// deterministic sample choice: the paths with the smallest hash of their decision vector
+					h := hashDecisions(px.taken)
 					ex.mu.Lock()
-					want := len(ex.samples) < cfg.Samples
+					want := len(ex.samples) < cfg.Samples || h < ex.sampleHash[len(ex.sampleHash)-1]
 					ex.mu.Unlock()
-					if want && len(px.vars) > 0 {
+					if want {
 						func() {
 							defer func() { recover() }()
 							if m := px.currentModel(); m != nil {
@@ -441,7 +443,17 @@ func explore(ld *loaded, cfg *runConfig) *runResult {
 								}
 								sort.Strings(cov)
 								ex.mu.Lock()
-								ex.samples = append(ex.samples, sample{Model: m, Covers: cov, Notes: px.notes})
+								i := sort.Search(len(ex.sampleHash), func(i int) bool { return ex.sampleHash[i] >= h })
+								ex.sampleHash = append(ex.sampleHash, 0)
+								copy(ex.sampleHash[i+1:], ex.sampleHash[i:])
+								ex.sampleHash[i] = h
+								ex.samples = append(ex.samples, sample{})
+								copy(ex.samples[i+1:], ex.samples[i:])
+								ex.samples[i] = sample{Model: m, Covers: cov, Notes: px.notes}
+								if len(ex.samples) > cfg.Samples {
+									ex.samples = ex.samples[:cfg.Samples]
+									ex.sampleHash = ex.sampleHash[:cfg.Samples]
+								}
 								ex.mu.Unlock()
 							}
 						}()
@@ -597,6 +609,22 @@ func runBatch(ld *loaded, cfg *runConfig) *batchResult {
 	out.Results = results
 	out.WallS = time.Since(t0).Seconds()
 	return out
+}
+
+func hashDecisions(ds []decision) uint64 {
+	h := uint64(1469598103934665603)
+	for _, d := range ds {
+		x := uint64(d.V)*4 + 1
+		if d.B {
+			x += 2
+		}
+		if d.Conc {
+			x += 1 << 40
+		}
+		h ^= x
+		h *= 1099511628211
+	}
+	return h
 }
 
 type multiFlag []string
